@@ -275,6 +275,17 @@ func renderBytesOrErr(b []byte, err error) string {
 	return common.Hex(b)
 }
 
+// resolveToo calls ToCommandLine with resolveIds=true; a panic is left to the caller's recover with a text that says
+// which call it was; what it returns is only required to be text or an error.
+func resolveToo(b []byte) {
+	defer func() {
+		if r := recover(); r != nil {
+			panic(fmt.Sprint("ToCommandLine(resolveIds=true): ", r))
+		}
+	}()
+	_, _ = rule.ToCommandLine(b, true)
+}
+
 func runRImpl(c RCaseR) (o rObs) {
 	guardEnter(c)
 	defer guardLeave()
@@ -317,12 +328,18 @@ func runRImpl(c RCaseR) (o rObs) {
 		}
 		runtime.ReadMemStats(&ms1)
 		o.Out = fmt.Sprintf("P:%s|B:%s|C:%s", renderRule(o.Rule), renderBytesOrErr(o.WF, o.BErr), cs)
+		if o.BErr == nil {
+			// the decoder asked to resolve ids and table codes to names: text or an error, never a panic (C13 is
+			// stated for both settings; the model and the round trip are about resolveIds=false)
+			resolveToo(o.WF)
+		}
 	case "bytes":
 		b, _ := hex.DecodeString(c.Hex)
 		runtime.ReadMemStats(&ms0)
 		o.Text, o.CErr = rule.ToCommandLine(b, false)
 		runtime.ReadMemStats(&ms1)
 		o.Out = renderBytesOrErr([]byte(o.Text), o.CErr)
+		resolveToo(b)
 		// the same bytes as a window of a longer buffer (a rule cut out of a receive buffer: the next message lies behind
 		// it): the answer is a function of the bytes given, whatever lies beyond their end
 		{
@@ -2121,6 +2138,32 @@ func ruleFamily(ctx *Ctx) error {
 					b := append([]byte{}, wf...)
 					binary.LittleEndian.PutUint32(b[4*word:], v)
 					run(RCaseR{Kind: "bytes", Hex: hex.EncodeToString(b), Note: "table-index"}, "table-index-sweep")
+				}
+			}
+			// … and by numbers whose interesting part sits in higher bits (a table indexed by `v >> 12`, by a byte of
+			// the word, by the sign bit): every small number shifted to every byte and nibble boundary, and 2^k, 2^k ± 1
+			{
+				var vs []uint32
+				for k := uint32(0); k <= 17; k++ {
+					for _, sh := range []uint{4, 8, 12, 16, 20, 24, 28} {
+						vs = append(vs, k<<sh, k<<sh|1, k<<sh-1)
+					}
+				}
+				for k := uint(0); k < 32; k++ {
+					vs = append(vs, 1<<k, 1<<k-1, 1<<k+1)
+				}
+				vs = append(vs, 0xffffffff, 0xfffffffe, 0x80000000, 0x7fffffff)
+				for _, v := range vs {
+					b := append([]byte{}, wf...)
+					binary.LittleEndian.PutUint32(b[4*131:], v)
+					run(RCaseR{Kind: "bytes", Hex: hex.EncodeToString(b), Note: "table-index"}, "table-index-sweep")
+					// the same number written as the value of the filter in a rule given to Build
+					if f0 := strings.SplitN(strings.SplitN(line, " -F ", 2)[len(strings.SplitN(line, " -F ", 2))-1], "=", 2); strings.Contains(line, " -F ") && len(f0) == 2 {
+						la := strings.Split(strings.Fields(line)[1], ",")
+						hs := func(x string) string { return common.HexS(x) }
+						run(RCaseR{Kind: "struct", Note: "table-index",
+							Spec: fmt.Sprintf("S;3;%s;%s;%s;;", hs(la[1]), hs(la[0]), fmt.Sprintf("2.%s.%s.%s", hs(f0[0]), hs("="), hs(strconv.FormatUint(uint64(v), 10))))}, "table-index-sweep")
+					}
 				}
 			}
 			for _, op := range []uint32{0, 0x08000000, 0x10000000, 0x18000000, 0x20000000, 0x28000000, 0x30000000, 0x38000000, 0x40000000, 0x48000000, 0x50000000, 0x58000000, 0x60000000, 0x68000000, 0x70000000, 0x78000000, 0x80000000} {
